@@ -90,6 +90,7 @@ type State struct {
 	ExitCode  *smt.Term
 	Trace     []string
 	MapPerm   bool
+	SharedWrites []string // package-level variables written after initialisation
 	FeasLen   int  // length of PC when the path condition was last found satisfiable
 	Forked    bool // some symbolic branch or split has been taken on this path
 	// AbstractArith: symbolic*symbolic products and divisions by a symbolic
@@ -150,6 +151,7 @@ func (s *State) Clone() *State {
 		n.Reached[k] = v
 	}
 	n.Trace = append([]string(nil), s.Trace...)
+	n.SharedWrites = append([]string(nil), s.SharedWrites...)
 	n.StateFnCt = make(map[string]int, len(s.StateFnCt))
 	for k, v := range s.StateFnCt {
 		n.StateFnCt[k] = v
